@@ -145,6 +145,7 @@ def _feature_difference(before: list, after: list) -> dict:
     ordered = sorted(keys)
     first_key = ordered[0] if ordered else None
     return {"key": first_key, "values": _jsonable(keys.get(first_key)), "differing_keys": ordered,
+            "all_values": {key: _jsonable(value) for key, value in keys.items()},
             "only_spaces_differ": sorted(spaced), "only_before": lost[:3], "only_after": gained[:3]}
 
 
@@ -184,11 +185,13 @@ def _differences(prefix: str, before: dict, after: dict, context: dict) -> list:
             one = [row for row in before["features"] if row[0] == kind]
             two = [row for row in after["features"] if row[0] == kind]
             if one != two:
-                fail("features", dict(_feature_difference(one, two), type=kind))
+                difference = _feature_difference(one, two)
+                for key in difference["differing_keys"]:
+                    fail("features", dict(difference, type=kind, key=key, values=_jsonable(difference["all_values"][key])))
     for section in SECTION_ORDER + sorted(set(before["structure"]) - set(SECTION_ORDER)):
         if before["structure"][section] != after["structure"][section]:
-            fail("structure", {"section": section,
-                               "diff": rec.diff_dumps(before["structure"][section], after["structure"][section])})
+            for item in rec.diff_dumps(before["structure"][section], after["structure"][section], limit=12):
+                fail("structure", {"section": section, "diff": [item]})
     if before["secmet_features"] != after["secmet_features"]:
         lost = _only(before["secmet_features"], after["secmet_features"])
         gained = _only(after["secmet_features"], before["secmet_features"])
@@ -294,6 +297,18 @@ def check_json(spec: dict) -> dict:
     return _result(spec, classes)
 
 
+def _records_section(text: str, unstable_areas: bool, key: str = None) -> list:
+    """ the list of records of a results JSON text.  The 'areas' summary sorts a *set* of protoclusters; with members
+        that have no consistent order the result depends on memory addresses (C17 judges that), so it is left out
+        then, to keep this body a function of the spec """
+    data = std_json.loads(text)
+    records = data[key] if key else data
+    if unstable_areas:
+        for entry in records:
+            entry.pop("areas", None)
+    return records
+
+
 def check_results(spec: dict) -> dict:
     """ the whole-run results file: AntismashResults.write_to_file / from_file and dump_records """
     from antismash.common.serialiser import AntismashResults, dump_records
@@ -330,8 +345,9 @@ def check_results(spec: dict) -> dict:
         handle = io.StringIO()
         data = dump_records([{}], [record], handle=handle)
     from antismash.common import json as as_json
-    if std_json.loads(handle.getvalue()) != std_json.loads(text)["records"] or \
-            std_json.loads(as_json.dumps(data)) != std_json.loads(text)["records"]:
+    unstable_areas = bool(context["ties"] or context["order_conflicts"])
+    if _records_section(handle.getvalue(), unstable_areas) != _records_section(text, unstable_areas, "records") or \
+            _records_section(as_json.dumps(data), unstable_areas) != _records_section(text, unstable_areas, "records"):
         found.append(("results_dump_records", dict(context)))
     # schema gate: compatible versions load the same record, others are refused
     schema = spec.get("schema", "same")
@@ -361,9 +377,14 @@ def check_results(spec: dict) -> dict:
     with code_under_test("results_rewrite_total"):
         handle = io.StringIO()
         AntismashResults("input.gbk", [reloaded], [{}], "7.1.0", taxon=built.taxon).write_to_file(handle)
-    if handle.getvalue() != text and not found:
-        found.append(("results_fixed_point", dict(context, diff=rec.diff_dumps(
-            std_json.loads(text), std_json.loads(handle.getvalue()), limit=60))))
+    one = {"records": _records_section(text, unstable_areas, "records")}
+    two = {"records": _records_section(handle.getvalue(), unstable_areas, "records")}
+    for key, value in std_json.loads(text).items():
+        one.setdefault(key, value)
+    for key, value in std_json.loads(handle.getvalue()).items():
+        two.setdefault(key, value)
+    if one != two and not found:
+        found.append(("results_fixed_point", dict(context, diff=rec.diff_dumps(one, two, limit=60))))
     _raise_first("results", spec, found)
     return _result(spec, classes)
 
@@ -390,12 +411,12 @@ def _route_clause(clause: str, name: str) -> bool:
     return any(clause == f"{route}_{name}" for route in ROUTES)
 
 
-def _numbering_failure(clause: str, detail: dict, kinds: list) -> bool:
+def _numbering_failure(clause: str, detail: dict, kinds: list, any_key: bool = False) -> bool:
     """ the failure is confined to numbers / member-derived qualifiers of area features, or to the order of
         the genes when genes are the tied kind """
     area_kinds = [kind for kind in kinds if kind != "CDS"]
     if _route_clause(clause, "features") and area_kinds:
-        return detail.get("type") in AREA_TYPES and set(detail.get("differing_keys") or ["?"]) <= MEMBER_KEYS
+        return detail.get("type") in AREA_TYPES and (any_key or detail.get("key") in MEMBER_KEYS)
     if _route_clause(clause, "structure"):
         if detail.get("section") == "cds_order":
             return "CDS" in kinds
@@ -412,17 +433,17 @@ def sig_equal_sort_key(sub, spec, clause, detail) -> bool:
 
 
 def sig_order_conflict(sub, spec, clause, detail) -> bool:
-    """ a whole-record area and an origin-spanning one each sort before the other (CDSCollection.__lt__) """
+    """ a whole-record area and an origin-spanning one each sort before the other (CDSCollection.__lt__): numbers,
+        member order and everything derived from it (hull, products) depend on the order of insertion """
     return (isinstance(detail, dict) and bool(detail.get("order_conflicts")) and spec.get("circular")
-            and _numbering_failure(clause, detail, [k for k in detail["order_conflicts"] if k != "CDS"]))
+            and _numbering_failure(clause, detail, [k for k in detail["order_conflicts"] if k != "CDS"], any_key=True))
 
 
 def sig_sideloaded_proto_core(sub, spec, clause, detail) -> bool:
     """ sideloaded protocluster: its proto_core feature gains category/core_location (left-over qualifiers) on reload """
     return (any(p.get("sideloaded") for p in spec.get("protoclusters") or []) and _route_clause(clause, "features")
-            and detail.get("type") == "proto_core" and detail.get("key") == "category"
-            and detail.get("values") == ["<absent>", ["other"]]
-            and set(detail.get("differing_keys")) == {"category", "core_location"})
+            and detail.get("type") == "proto_core" and detail.get("key") in ("category", "core_location")
+            and detail.get("values")[0] == "<absent>" and {"category", "core_location"} <= set(detail["differing_keys"]))
 
 
 def sig_gene_function_split(sub, spec, clause, detail) -> bool:
@@ -447,6 +468,7 @@ def sig_gene_function_split(sub, spec, clause, detail) -> bool:
 def _prepeptide_rebuilt_class(spec: dict) -> bool:
     for gene in spec["genes"]:
         if gene.get("prepeptide") and (gene["loc"]["strand"] == -1 or any(gene.get("fuzzy") or ())
+                                       or rec.gen.is_span(gene["loc"])
                                        or rec.loc_len(rec.shifted(gene["loc"], gene.get("codon_start", 1))) % 3):
             return True
     return False
@@ -466,15 +488,21 @@ def sig_prepeptide_location_rebuilt(sub, spec, clause, detail) -> bool:
 
 def sig_notes_duplicated(sub, spec, clause, detail) -> bool:
     """ a feature read with /note and given further notes: every to_biopython() appends them again """
-    return (clause == "write_repeatable" and detail.get("differing_keys") == ["note"]
+    return (clause == "write_repeatable" and detail.get("key") == "note" and detail.get("differing_keys") == ["note"]
             and any(g.get("added_notes") and (g.get("quals") or {}).get("note") for g in spec["genes"]))
 
 
 def sig_prepeptide_no_subclass(sub, spec, clause, detail) -> bool:
     """ prepeptide without subclass: /predicted_class (no value) is read back as "" and rewritten as ="" """
-    return (clause == "gb_features" and detail.get("type") == "CDS_motif" and detail.get("key") == "predicted_class"
-            and detail.get("values") == [[None], [""]]
-            and any((g.get("prepeptide") or {"subclass": 0}).get("subclass") is None for g in spec["genes"]))
+    if not any((g.get("prepeptide") or {"subclass": 0}).get("subclass") is None for g in spec["genes"]):
+        return False
+    if clause == "gb_features":
+        return (detail.get("type") == "CDS_motif" and detail.get("key") == "predicted_class"
+                and detail.get("values") == [[None], [""]])
+    if clause == "gb_structure" and detail.get("section") == "prepeptides":
+        return all(item["at"].endswith("][3]") and item["first"] is None and item["second"] == ""
+                   for item in detail["diff"])
+    return False
 
 
 def sig_long_unbroken_value(sub, spec, clause, detail) -> bool:
@@ -483,15 +511,52 @@ def sig_long_unbroken_value(sub, spec, clause, detail) -> bool:
     longest = max([len(v or "") for pair in spec.get("candidate_extras") or [] for v in pair[:1]] +
                   [len(g["prepeptide"].get(key) or "") for g in spec["genes"] if g.get("prepeptide")
                    for key in ("leader", "core", "tail")] + [0])
-    if longest < rec.LONG_VALUE or clause != "gb_features":
+    if longest < rec.LONG_VALUE or not clause.startswith("gb_"):
+        return False
+    if clause == "gb_structure" and detail.get("section") in ("candidates", "prepeptides"):
+        # the same strings seen through the accessors: smiles_structure, leader, core, tail
+        return all((item["at"].endswith("/smiles") or item["at"][-4:] in ("][4]", "][5]", "][6]"))
+                   and isinstance(item["first"], str) and isinstance(item["second"], str)
+                   and " " not in item["first"] and item["second"].replace(" ", "") == item["first"]
+                   for item in detail["diff"])
+    if clause == "gb_reload_total":
+        # since the core's end is computed from len(core), a core that grew by a blank can run past the gene
+        return (detail.get("exception") == "ValueError" and "get_sub_location_from_protein_coordinates" in
+                detail.get("where", "") and any(g.get("prepeptide") and g["prepeptide"].get("tail")
+                                                  and len(g["prepeptide"]["core"]) >= rec.LONG_VALUE
+                                                  for g in spec["genes"]))
+    if clause != "gb_features":
         return False
     spaced = set(detail.get("only_spaces_differ") or [])
     if detail.get("type") == "cand_cluster":
         return detail.get("key") == "SMILES" and spaced == {"SMILES"}
     if detail.get("type") == "CDS_motif":
-        others = set(detail.get("differing_keys")) - SEQUENCE_KEYS - {"<location>", "leader_location", "tail_location",
-                                                                      "note", "predicted_class", "<row>"}
-        return bool(spaced & SEQUENCE_KEYS) and not others
+        # the blank itself, or the borders it moved: a longer leader/core shifts the sections
+        return bool(spaced & SEQUENCE_KEYS) and detail.get("key") in SEQUENCE_KEYS | {
+            "<location>", "leader_location", "tail_location", "note", "<row>"}
+    return False
+
+
+def _only_strand_gained(before: str, after: str) -> bool:
+    return before != after and before.replace(":None", ":1") == after
+
+
+def sig_candidate_strand_linear(sub, spec, clause, detail) -> bool:
+    """ linear record: create_candidate_clusters connects the members without a wrap point, from_biopython with one;
+        the two paths give the hull of members with mixed/missing strands a different strand (None vs +1).
+        Invisible in GenBank text, but the JSON location text changes """
+    if spec.get("circular") or clause.startswith("gb_"):
+        return False
+    if _route_clause(clause, "features"):
+        return (detail.get("type") in ("cand_cluster", "region") and detail.get("key") == "<location>"
+                and _only_strand_gained(*detail["values"]))
+    if _route_clause(clause, "structure") and detail.get("section") in ("candidates", "regions"):
+        return all(isinstance(item["first"], str) and isinstance(item["second"], str)
+                   and _only_strand_gained(item["first"], item["second"]) for item in detail["diff"])
+    if _route_clause(clause, "secmet_features"):
+        return set(detail.get("classes_differing")) <= {"CandidateCluster", "Region"} and all(
+            _only_strand_gained(one[3], two[3]) and one[:3] == two[:3]
+            for one, two in zip(detail["only_before"], detail["only_after"]))
     return False
 
 
@@ -515,6 +580,7 @@ SIGNATURES = {
     "prepeptide_no_subclass": sig_prepeptide_no_subclass,
     "long_unbroken_value": sig_long_unbroken_value,
     "pfam_empty_go": sig_pfam_empty_go,
+    "candidate_strand_linear": sig_candidate_strand_linear,
 }
 
 
